@@ -156,13 +156,27 @@ fn main() {
         // watchdog: a case that does not return within the limit is an input on which processing hangs
         let w = watch.clone(); let rp = report.clone(); let limit = if tier == "thorough" { 10 } else { 5 };
         let mode2 = mode.clone();
-        std::thread::spawn(move || loop {
-            std::thread::sleep(std::time::Duration::from_millis(250));
-            let (t0, what, id) = { let g = w.lock().unwrap(); (g.0, g.1.clone(), g.2) };
-            if t0.elapsed().as_secs() >= limit {
-                if let Some(p) = rp.as_ref() { if let Ok(mut f) = std::fs::OpenOptions::new().create(true).append(true).open(format!("{}.hang", p)) {
-                    let _ = writeln!(f, "FAIL C01 id={} processing did not return within {} s (plan {}): {}", id, limit, mode2, what); } }
-                std::process::exit(3);
+        // the limit is on CPU time consumed by this process while one case is running (robust against a loaded machine);
+        // a case that blocks without consuming CPU is caught by a wall-clock cap of 8 x limit
+        fn cpu_secs() -> f64 {
+            let st = std::fs::read_to_string("/proc/self/stat").unwrap_or_default();
+            let rest = match st.rfind(')') { Some(i) => &st[i + 1..], None => return 0.0 };
+            let f: Vec<&str> = rest.split_whitespace().collect();
+            if f.len() < 13 { return 0.0; }
+            (f[11].parse::<f64>().unwrap_or(0.0) + f[12].parse::<f64>().unwrap_or(0.0)) / 100.0
+        }
+        std::thread::spawn(move || {
+            let mut cur_id = -1i64; let mut cpu0 = cpu_secs(); let mut wall0 = std::time::Instant::now();
+            loop {
+                std::thread::sleep(std::time::Duration::from_millis(250));
+                let (t0, what, id) = { let g = w.lock().unwrap(); (g.0, g.1.clone(), g.2) };
+                if id != cur_id { cur_id = id; cpu0 = cpu_secs(); wall0 = t0; continue; }
+                let cpu = cpu_secs() - cpu0;
+                if cpu >= limit as f64 || wall0.elapsed().as_secs() >= 8 * limit {
+                    if let Some(p) = rp.as_ref() { if let Ok(mut f) = std::fs::OpenOptions::new().create(true).append(true).open(format!("{}.hang", p)) {
+                        let _ = writeln!(f, "FAIL C01 id={} processing did not return within {} s of CPU time (plan {}): {}", id, limit, mode2, what); } }
+                    std::process::exit(3);
+                }
             }
         });
     }
